@@ -22,7 +22,7 @@ T_DYN = Ty('dyn')
 
 
 class State:
-    __slots__ = ('loc', 'heap', 'pc', 'path', 'assigned', 'pure', 'old', 'bound', 'trace_on')
+    __slots__ = ('loc', 'heap', 'pc', 'path', 'assigned', 'pure', 'old', 'bound', 'trace_on', 'final_loc', 'ghost_pc')
 
     def __init__(self):
         self.loc = {}
@@ -33,6 +33,8 @@ class State:
         self.pure = False
         self.old = None        # State at entry (for old())
         self.bound = []        # quantifier-bound variables in pure mode
+        self.final_loc = None  # locals of the outermost function when it returned (ghost locals for posts)
+        self.ghost_pc = None   # while ghost code is evaluated: the real path condition (definitions go there)
 
     def fork(self):
         s = State()
@@ -44,6 +46,8 @@ class State:
         s.pure = self.pure
         s.old = self.old
         s.bound = self.bound
+        s.final_loc = self.final_loc
+        s.ghost_pc = self.ghost_pc
         return s
 
     def assume(self, *fs):
@@ -96,6 +100,12 @@ class Executor:
         x = z3.Real('ax_x')
         i = z3.Int('ax_i')
         out = sym.string_axioms() + self.global_axioms
+        for nm in sorted(used or ()):
+            # every Python list / dict has a non-negative length: axiom for each base heap constant
+            if nm.endswith(':Llen') or nm.endswith(':Dlen'):
+                c = z3.Const(nm, z3.ArraySort(Ref, I))
+                r = z3.Const('ax_r', Ref)
+                out.append(z3.ForAll([r], c[r] >= 0, patterns=[c[r]]))
         if used is None or 'ulp' in used:
             out.append(z3.ForAll([x], sym.ULP(x) > 0, patterns=[sym.ULP(x)]))
         if used is None or 'boxR' in used:
@@ -182,11 +192,15 @@ class Executor:
         saved = st.loc
         st.loc = dict(args)
         fr = Frame(fi, self_cls, depth)
+        for name, text in self.specs.ghosts.get((fi.qualname, '<entry>'), []):
+            st.loc[name] = self.specs.eval_ghost(self, text, st, fr)
         for kind, pay, s1 in self.block(strip_doc(fi.node.body), st, fr):
             if kind == 'next':
                 kind, pay = 'return', vnone()
             if kind in ('break', 'continue'):
                 raise Unsupported('break/continue outside loop')
+            if depth == 0:
+                s1.final_loc = s1.loc
             s1.loc = saved
             yield kind, pay, s1
 
@@ -243,7 +257,16 @@ class Executor:
         m = getattr(self, 'st_' + type(n).__name__, None)
         if m is None:
             raise Unsupported(f'statement {type(n).__name__} at {fr.fi.where}')
-        yield from m(n, st, fr)
+        gh = self.specs.ghosts_for(fr.fi.qualname, n) if isinstance(n, (ast.Assign, ast.Expr, ast.AugAssign)) else None
+        if not gh:
+            yield from m(n, st, fr)
+            return
+        for kind, pay, s1 in m(n, st, fr):
+            if kind == 'next':
+                vals = [(name, self.specs.eval_ghost(self, text, s1, fr)) for name, text in gh]
+                for name, v in vals:
+                    s1.loc[name] = v
+            yield kind, pay, s1
 
     def st_Pass(self, n, st, fr):
         yield 'next', None, st
@@ -325,6 +348,12 @@ class Executor:
             if isinstance(v, Exc):
                 yield 'raise', v.name, s1
                 continue
+            if len(n.targets) == 1 and isinstance(n.targets[0], ast.Name):
+                # ghost witnesses of a comprehension / sorted() call become addressable by the name of
+                # the variable the result is bound to:  comp_pos("name", j), comp_inv("name", i), ...
+                for w in ('comp_pos', 'comp_inv', 'sorted_perm', 'sorted_inv'):
+                    if isinstance(n.value, (ast.ListComp, ast.Call)) and ('$w.' + w) in s1.heap.maps:
+                        s1.heap.maps[f'$w.{w}.{n.targets[0].id}'] = s1.heap.maps['$w.' + w]
             states = [s1]
             for t in n.targets:
                 nxt = []
@@ -516,6 +545,10 @@ class Executor:
         assigned = _assigned_names(n.body) | ({idx_name} if itv is not None else set())
         if isinstance(n, ast.For):
             assigned |= _target_names(n.target)
+        for sub in ast.walk(n):
+            if isinstance(sub, (ast.Assign, ast.Expr, ast.AugAssign)):
+                for name, _ in (self.specs.ghosts_for(fr.fi.qualname, sub) or []):
+                    assigned.add(name)
         for name in sorted(assigned):
             if name in hv.loc and isinstance(hv.loc[name], V) and hv.loc[name].kind != 'none':
                 old = hv.loc[name]
@@ -855,7 +888,7 @@ class Executor:
                 if not side:
                     out.append((Exc('IndexError'), s1))
                     continue
-                i = z3.If(idx < 0, idx + n, idx)
+                i = norm_index(idx, n)
                 arrs = s1.heap.larrs(c.t, c.ty.elem)
                 new = [z3.Store(a, i, t) for a, t in zip(arrs, to_leaves(v, c.ty.elem))]
                 s1.heap.set_larrs(c.t, c.ty.elem, new)
@@ -894,7 +927,7 @@ class Executor:
                 i = z3.Int('dd_i')
                 s1.assume(*sym.dict_wf(s1.heap, c.t))
                 s1.assume(0 <= p, p < old_n, old_keys[p] == key)
-                nk = z3.Lambda([i], z3.If(i < p, old_keys[i], old_keys[i + 1]))
+                nk = sym.defarray(s1, i, z3.If(i < p, old_keys[i], old_keys[i + 1]), 'dkeys')
                 h1.set_dorder(c.t, old_n - 1, nk)
                 self.notes.add('A3: del d[k] keeps the relative order of the remaining keys')
                 out.append((None, s1))
@@ -1389,7 +1422,7 @@ class Executor:
             if k.kind != 'int':
                 raise Unsupported('list index must be int')
             idx = k.t
-            i = z3.If(idx < 0, idx + n, idx)
+            i = norm_index(idx, n, st.pure)
             if st.pure:
                 return [(h.lget(c.t, c.ty.elem, i), st)]
             out = []
@@ -1428,7 +1461,7 @@ class Executor:
         lo, hi = bound(sl.lower, z3.IntVal(0)), bound(sl.upper, n)
         ln = z3.If(hi > lo, hi - lo, 0)
         i = z3.Int('sl_i')
-        arrs = [z3.Lambda([i], a[i + lo]) for a in h.larrs(c.t, c.ty.elem)]
+        arrs = [sym.defarray(st, i, a[i + lo], 'slice') for a in h.larrs(c.t, c.ty.elem)]
         return [(self.new_list(st, c.ty.elem, ln, arrs), st)]
 
     # ---- list helpers
@@ -1438,7 +1471,7 @@ class Executor:
             raise Unsupported('concatenation of lists with different element types')
         la, lb = h.llen(a.t), h.llen(b.t)
         i = z3.Int('cc_i')
-        arrs = [z3.Lambda([i], z3.If(i < la, x[i], y[i - la]))
+        arrs = [sym.defarray(st, i, z3.If(i < la, x[i], y[i - la]), 'concat')
                 for x, y in zip(h.larrs(a.t, a.ty.elem), h.larrs(b.t, b.ty.elem))]
         return self.new_list(st, a.ty.elem, la + lb, arrs)
 
@@ -1446,7 +1479,7 @@ class Executor:
         h = st.heap
         la, lb = h.llen(a.t), h.llen(b.t)
         i = z3.Int('ex_i')
-        arrs = [z3.Lambda([i], z3.If(i < la, x[i], y[i - la]))
+        arrs = [sym.defarray(st, i, z3.If(i < la, x[i], y[i - la]), 'extend')
                 for x, y in zip(h.larrs(a.t, a.ty.elem), h.larrs(b.t, b.ty.elem))]
         h.set_larrs(a.t, a.ty.elem, arrs)
         h.set_llen(a.t, la + lb)
@@ -1463,9 +1496,13 @@ class Executor:
         h = st.heap
         n = h.llen(l.t)
         p = pos
-        p = z3.If(p < 0, z3.If(p + n < 0, 0, p + n), z3.If(p > n, n, p))
+        ps_ = z3.simplify(p) if not isinstance(p, int) else z3.IntVal(p)
+        if z3.is_int_value(ps_) and ps_.as_long() == 0:
+            p = z3.IntVal(0)
+        else:
+            p = z3.If(p < 0, z3.If(p + n < 0, 0, p + n), z3.If(p > n, n, p))
         i = z3.Int('ins_i')
-        arrs = [z3.Lambda([i], z3.If(i < p, a[i], z3.If(i == p, t, a[i - 1])))
+        arrs = [sym.defarray(st, i, z3.If(i < p, a[i], z3.If(i == p, t, a[i - 1])), 'ins')
                 for a, t in zip(h.larrs(l.t, l.ty.elem), to_leaves(v, l.ty.elem))]
         h.set_larrs(l.t, l.ty.elem, arrs)
         h.set_llen(l.t, n + 1)
@@ -1474,7 +1511,7 @@ class Executor:
         """pop(k) -> [(V|Exc, state)]; k is V int or None (= last)"""
         h = st.heap
         n = h.llen(l.t)
-        idx = (n - 1) if k is None else z3.If(k.t < 0, k.t + n, k.t)
+        idx = (n - 1) if k is None else norm_index(k.t, n)
         ok = z3.And(n > 0, idx >= 0, idx < n)
         out = []
         for side, s1 in self.split(st, ok, 'pop index in range'):
@@ -1485,7 +1522,7 @@ class Executor:
             v = h1.lget(l.t, l.ty.elem, idx)
             self._assume_alive(v, s1)
             i = z3.Int('pop_i')
-            arrs = [z3.Lambda([i], z3.If(i < idx, a[i], a[i + 1])) for a in h1.larrs(l.t, l.ty.elem)]
+            arrs = [sym.defarray(s1, i, z3.If(i < idx, a[i], a[i + 1]), 'pop') for a in h1.larrs(l.t, l.ty.elem)]
             h1.set_larrs(l.t, l.ty.elem, arrs)
             h1.set_llen(l.t, n - 1)
             out.append((v, s1))
@@ -1507,7 +1544,7 @@ class Executor:
             s1.assume(0 <= p, p < n, v_eq(el(p), x),
                       sym.forall_int(0, p, lambda j: z3.Not(v_eq(el(j), x))))
             h1 = s1.heap
-            arrs = [z3.Lambda([i], z3.If(i < p, a[i], a[i + 1])) for a in h1.larrs(l.t, l.ty.elem)]
+            arrs = [sym.defarray(s1, i, z3.If(i < p, a[i], a[i + 1]), 'rm') for a in h1.larrs(l.t, l.ty.elem)]
             h1.set_larrs(l.t, l.ty.elem, arrs)
             h1.set_llen(l.t, n - 1)
             s1.heap.maps['$w.remove_index'] = p
@@ -1611,7 +1648,7 @@ class Executor:
             cond = z3.And(*conds) if conds else z3.BoolVal(True)
             elt_leaves = to_leaves(eltv, ety)
             if not g.ifs:
-                arrs = [z3.Lambda([j], t) for t in elt_leaves]
+                arrs = [sym.defarray(s1, j, t, 'comp') for t in elt_leaves]
                 out.append((self.new_list(s1, ety, n, arrs), s1))
                 continue
             m = fresh('cp_m', I)
@@ -1626,7 +1663,7 @@ class Executor:
                       sym.forall_int(0, n, lambda x: z3.Implies(cond_at(x), z3.And(0 <= inv[x], inv[x] < m, pos[inv[x]] == x)),
                                      pattern=lambda x: inv[x]))
             self.notes.add('A3: filtering comprehension yields the order-preserving sub-list of matching elements')
-            arrs = [z3.Lambda([a], z3.substitute(t, (j, pos[a]))) for t in elt_leaves]
+            arrs = [sym.defarray(s1, a, z3.substitute(t, (j, pos[a])), 'comp') for t in elt_leaves]
             res = self.new_list(s1, ety, m, arrs)
             s1.heap.maps['$w.comp_pos'] = pos
             s1.heap.maps['$w.comp_inv'] = inv
@@ -1699,6 +1736,19 @@ class BoundMethod:
 
 
 _qcache = {}
+
+
+def norm_index(idx, n, pure=False):
+    """Python index normalisation.  A literal index is resolved statically.  In specifications a
+    symbolic index denotes the element at that position (no negative wrap-around): this keeps
+    `l[i]` a plain array select, usable as a quantifier trigger.  In executed code a symbolic index
+    keeps the full Python semantics."""
+    s = z3.simplify(idx)
+    if z3.is_int_value(s):
+        return s if s.as_long() >= 0 else n + s.as_long()
+    if pure:
+        return idx
+    return z3.If(idx < 0, idx + n, idx)
 
 
 def _has_quantifier(t):
